@@ -1633,6 +1633,9 @@ def install_models(I):
             return some(v.at(a[1])) if 0 <= a[1] < v.len else none()
         raise Unanalysable("slice::get with symbolic index")
     M["core::slice::[T]::get"] = slice_get
+    M["core::slice::[T]::get_mut"] = slice_get
+    M["alloc::vec::Vec::get"] = slice_get
+    M["alloc::vec::Vec::get_mut"] = slice_get
 
     def it_pred(name):
         def m(I, a, f):
